@@ -79,6 +79,11 @@ int simk_sigaction(int sig, const struct sigaction *act, struct sigaction *old) 
   return 0;
 }
 
+// signal masks of simulated threads are not modelled (signals are injected as EINTR at blocking calls whatever the mask says);
+// the real mask of the worker process must stay untouched
+int simk_sigprocmask(int, const sigset_t *, sigset_t *old) { if (old) sigemptyset(old); return 0; }
+int simk_pthread_sigmask(int, const sigset_t *, sigset_t *old) { if (old) sigemptyset(old); return 0; }
+
 // ---------------------------------------------------------------- threads
 int simk_pthread_detach(pthread_t th) {
   yield_point();
